@@ -277,6 +277,9 @@ func genVP9Desc(t *core.Tape) (vp9Desc, []byte) {
 			if t.Chance(1, 8) {
 				d.ng = uint8(t.Intn(16))
 			}
+			if t.Chance(1, 12) {
+				d.ng = uint8([]int{84, 85, 86, 127, 128, 170, 171, 255}[t.Intn(8)]) // counts whose multiples leave 8 bits
+			}
 			out = append(out, d.ng)
 			for k := 0; k < int(d.ng); k++ {
 				tid := uint8(t.Intn(8))
